@@ -259,11 +259,21 @@ Fixpoint ponder_text (pv : move_array) : str :=
   | _ => []
   end.
 
+(* the number printed after "score mate", when the evaluation is inside the mate window *)
+Definition mate_number (eval : Z) : option Z :=
+  if MATE_SCORE - MATE_WINDOW <=? eval then Some (Z.quot (MATE_SCORE - eval + 1) 2)
+  else if eval <=? - MATE_SCORE + MATE_WINDOW then Some (Z.quot (MATE_SCORE + eval) (-2))
+  else None.
+
+Definition score_text (eval : Z) : str :=
+  match mate_number eval with
+  | Some n => s_score_mate ++ show_Z n
+  | None => s_score_cp ++ show_Z eval
+  end.
+
 Definition info_line (s : sstate) (depth eval : Z) : str :=
   s_info_pv ++ ponder_text (pv_moves s) ++ s_depth ++ show_Z depth ++ s_nodes ++ show_Z (nodes s)
-  ++ (if MATE_SCORE - MATE_WINDOW <=? eval then s_score_mate ++ show_Z (Z.quot (MATE_SCORE - eval + 1) 2)
-      else if eval <=? - MATE_SCORE + MATE_WINDOW then s_score_mate ++ show_Z (Z.quot (MATE_SCORE + eval) (-2))
-      else s_score_cp ++ show_Z eval).
+  ++ score_text eval.
 
 (* ---- get_best_move *)
 Definition mark_pv (best : option BoardState) (moves : list BoardState) : list BoardState :=
